@@ -60,3 +60,33 @@ Fixpoint scale_vals (tr : list (Q * Q)) (vs : list Q) : list Q :=
   | _, _ => vs
   end.
 Definition scale_steps (tr : list (Q * Q)) (st : steps_t) : steps_t := map (fun tv => (fst tv, scale_vals tr (snd tv))) st.
+
+(* ---------------------------------------------------------------------------------------------------------------- *)
+(* relations used by the scaling theorem: a history whose channel-k values are (v - off_k) / amp_k of another one
+   (values up to == on Q, times and NaN positions identical) *)
+Open Scope Q_scope.
+Definition scale_of (tr : list (Q * Q)) (ch : nat) (v : Q) : Q :=
+  match nth_error tr ch with Some (amp, off) => (v - off) / amp | None => v end.
+
+Definition oq_rel (tr : list (Q * Q)) (ch : nat) (a b : option Q) : Prop :=
+  match a, b with
+  | Some x, Some y => y == scale_of tr ch x
+  | None, None => True
+  | _, _ => False
+  end.
+
+Inductive cur_rel (tr : list (Q * Q)) : nat -> list (option Q) -> list (option Q) -> Prop :=
+| cur_nil i : cur_rel tr i [] []
+| cur_cons i a b l l' : oq_rel tr i a b -> cur_rel tr (S i) l l' -> cur_rel tr i (a :: l) (b :: l').
+
+Definition hist_rel (tr : list (Q * Q)) (a b : Q * list (option Q)) : Prop :=
+  fst a = fst b /\ cur_rel tr 0 (snd a) (snd b).
+
+(* the relation between the two observable results *)
+Definition outcome_scaled (tr : list (Q * Q)) (a b : res outcome) : Prop :=
+  match a, b with
+  | Ok (h, t), Ok (h', t') => t = t' /\ Forall2 (hist_rel tr) h h'
+  | Err e, Err e' => e = e'
+  | _, _ => False
+  end.
+
